@@ -505,11 +505,173 @@ func Mutate(rng *rand.Rand, d []byte) []byte {
 	return d
 }
 
+// SynthBoundary: stored block(s) whose output ends exactly at (or one off) a
+// size at which the decoder's window buffer is full (4096, 16384, 32768 and
+// multiples), followed directly by a Huffman block that starts with a
+// literal or with a match.
+func SynthBoundary(rng *rand.Rand) Stream {
+	var w BitW
+	target := []int{4096, 16384, 32768, 65536, 98304}[rng.Intn(5)] + []int{0, 0, 0, -1, 1}[rng.Intn(5)]
+	var plain []byte
+	for len(plain) < target {
+		n := target - len(plain)
+		if n > 65535 {
+			n = 65535
+		}
+		if rng.Intn(3) == 0 && n > 10 {
+			n = 1 + rng.Intn(n)
+		}
+		d := vhlib.RandBytes(rng, n)
+		w.Bits(0, 1)
+		w.Bits(0, 2)
+		w.Align()
+		w.Bits(uint64(n), 16)
+		w.Bits(uint64(^uint16(n)), 16)
+		for _, c := range d {
+			w.Bits(uint64(c), 8)
+		}
+		plain = append(plain, d...)
+	}
+	// final fixed-Huffman block
+	w.Bits(1, 1)
+	w.Bits(1, 2)
+	lits := make([]int, 288)
+	for i := range lits {
+		switch {
+		case i < 144:
+			lits[i] = 8
+		case i < 256:
+			lits[i] = 9
+		case i < 280:
+			lits[i] = 7
+		default:
+			lits[i] = 8
+		}
+	}
+	lc := Canonical(lits)
+	emitLit := func(c int) {
+		w.Code(lc[c], uint(lits[c]))
+		plain = append(plain, byte(c))
+	}
+	emitMatch := func() {
+		// length 3 (symbol 257), distance 1..4 (symbols 0..3, 5-bit codes)
+		w.Code(lc[257], uint(lits[257]))
+		d := 1 + rng.Intn(4)
+		w.Code(uint64(d-1), 5)
+		for k := 0; k < 3; k++ {
+			plain = append(plain, plain[len(plain)-d])
+		}
+	}
+	for k := 0; k < 1+rng.Intn(6); k++ {
+		if rng.Intn(2) == 0 && len(plain) > 4 {
+			emitMatch()
+		} else {
+			emitLit(rng.Intn(256))
+		}
+	}
+	w.Code(lc[256], uint(lits[256]))
+	w.Align()
+	return Stream{Data: w.Buf, Plain: plain, Valid: true, Kind: "synth-boundary"}
+}
+
+// SynthShortEOB: one final dynamic block in which (nearly) all literals and
+// some length symbols are used with long codes while end-of-block has the
+// shortest code, so that the stream ends a few bits after the last symbol.
+func SynthShortEOB(rng *rand.Rand) Stream {
+	var w BitW
+	w.Bits(1, 1)
+	w.Bits(2, 2)
+	nlit := 257 + rng.Intn(30)
+	litLens := make([]int, nlit)
+	used := 0
+	for i := range litLens {
+		if i == 256 || rng.Intn(12) != 0 {
+			litLens[i] = 1
+			used++
+		}
+	}
+	// lengths: EOB short, the others a complete code below it
+	l := RandLens(rng, used, used, 15)
+	// make the first entry the shortest
+	mi := 0
+	for i := range l {
+		if l[i] < l[mi] {
+			mi = i
+		}
+	}
+	l[0], l[mi] = l[mi], l[0]
+	k := 1
+	for i := range litLens {
+		if litLens[i] == 0 {
+			continue
+		}
+		if i == 256 {
+			litLens[i] = l[0]
+		} else {
+			litLens[i] = l[k]
+			k++
+		}
+	}
+	distLens := []int{1, 1}
+	all := append(append([]int{}, litLens...), distLens...)
+	clLens := make([]int, 19)
+	usedCl := map[int]bool{}
+	for _, v := range all {
+		usedCl[v] = true
+	}
+	var syms []int
+	for v := range usedCl {
+		syms = append(syms, v)
+	}
+	if len(syms) == 1 {
+		clLens[syms[0]] = 1
+	} else {
+		// fixed-length code over the used symbols
+		nb := 1
+		for (1 << uint(nb)) < len(syms) {
+			nb++
+		}
+		cl := RandLens(rng, len(syms), len(syms), 7)
+		for i, v := range syms {
+			clLens[v] = cl[i]
+		}
+		_ = nb
+	}
+	hclen := 19
+	w.Bits(uint64(nlit-257), 5)
+	w.Bits(uint64(len(distLens)-1), 5)
+	w.Bits(uint64(hclen-4), 4)
+	for i := 0; i < hclen; i++ {
+		w.Bits(uint64(clLens[clenOrder[i]]), 3)
+	}
+	cc := Canonical(clLens)
+	for _, v := range all {
+		w.Code(cc[v], uint(clLens[v]))
+	}
+	lc := Canonical(litLens)
+	var plain []byte
+	for i := 0; i < 1+rng.Intn(20); i++ {
+		c := rng.Intn(256)
+		if litLens[c] == 0 {
+			continue
+		}
+		w.Code(lc[c], uint(litLens[c]))
+		plain = append(plain, byte(c))
+	}
+	w.Code(lc[256], uint(litLens[256]))
+	w.Align()
+	return Stream{Data: w.Buf, Plain: plain, Valid: true, Kind: "synth-short-eob"}
+}
+
 // FlateCorpus returns a mixed set of DEFLATE inputs.
 func FlateCorpus(rng *rand.Rand, n int, maxPlain int) []Stream {
 	var out []Stream
 	for i := 0; i < n; i++ {
-		switch rng.Intn(10) {
+		switch rng.Intn(12) {
+		case 10:
+			out = append(out, SynthBoundary(rng))
+		case 11:
+			out = append(out, SynthShortEOB(rng))
 		case 0, 1:
 			p := Plain(rng, maxPlain)
 			lv := []int{-2, 0, 1, 2, 3, 4, 5, 6, 7, 8, 9}[rng.Intn(11)]
